@@ -85,6 +85,12 @@ Theorem C07_sequence_only_deletes : forall ops t t', wf t -> ordered_seq (zipped
   rm_seq t ops = Ok t' -> sub_reducible t t'.
 Proof. exact rm_seq_sub_reducible. Qed.
 
+(* the specification is compositional: removing ranks [lo,mid) and then, in the new numbering,
+   [lo,lo+w) is removing [lo,mid+w) at once (what chunk-by-chunk deletion relies on) *)
+Theorem C07_adjacent_ranges : forall lo mid w l, 0 <= lo <= mid -> 0 <= w ->
+  spec_rm lo (lo + w) 0 (spec_rm lo mid 0 l) = spec_rm lo (mid + w) 0 l.
+Proof. exact spec_rm_adjacent. Qed.
+
 (* in the functional model copy is the identity (aliasing is covered by the
    correspondence check, which compares the source object after every operation) *)
 Theorem C07_copy : forall t, copy t = t.
@@ -115,5 +121,6 @@ Print Assumptions C07_len_after.
 Print Assumptions C07_content_after.
 Print Assumptions C07_sequence.
 Print Assumptions C07_sequence_only_deletes.
+Print Assumptions C07_adjacent_ranges.
 Print Assumptions C07_copy.
 Print Assumptions C07_precondition_needed_refuted.
